@@ -2,6 +2,7 @@ CONSTANTS
   CropClamp = TRUE
   StartClamp = FALSE
   CtorLen = TRUE
+  CropUpper = TRUE
   MCDepth = 3
 SPECIFICATION Spec
 INVARIANT Refines
